@@ -58,6 +58,7 @@ class Engine:
         self.result = None
         self.cur_st = None
         self.cur_state_for_truth = None
+        self.used_defs = set()
 
     # ------------------------------------------------------------------ obligations
     def oblige(self, st, goal, kind, label, lineno=0, note=""):
@@ -68,14 +69,33 @@ class Engine:
         n = sum(1 for o in self.obls if o.name == nm or o.name.startswith(nm + "#"))
         if n:
             nm = f"{nm}#{n}"
-        self.obls.append(Obligation(nm, kind, st.pc, goal, lineno, note or " & ".join(st.trace[-6:])))
+        hyps = list(st.pc) + self.reg.def_axioms(self.used_defs, self.c.opaque if self.c else ())
+        self.obls.append(Obligation(nm, kind, hyps, goal, lineno, note or " & ".join(st.trace[-6:])))
 
     def cover(self, st, label, lineno=0):
         nm = f"{self.name}/cover/{label}"
         n = sum(1 for o in self.obls if o.name == nm or o.name.startswith(nm + "#"))
         if n:
             nm = f"{nm}#{n}"
-        self.obls.append(Obligation(nm, "cover", st.pc, TRUE, lineno, "", cover=True))
+        hyps = list(st.pc) + self.reg.def_axioms(self.used_defs, self.c.opaque if self.c else ())
+        self.obls.append(Obligation(nm, "cover", hyps, TRUE, lineno, "", cover=True))
+
+    def bv(self, name, sort):
+        """Bound variable with a deterministic, depth-indexed name: alpha-equivalent specification formulas
+        then become the *same* AST, which keeps proofs stable (z3 compares bound names)."""
+        return z3.Const(f"{name}@{getattr(self, 'qdepth', 0)}", sort)
+
+    def bvar(self, name, t):
+        t = parse_type(t)
+        k = t[0]
+        if k == "tuple":
+            return V(t, tuple(self.bvar(f"{name}.{i}", ti) for i, ti in enumerate(t[1])))
+        if k == "opt":
+            return V(t, (self.bv(name + ".isnone", z3.BoolSort()), self.bvar(name + ".val", t[1])))
+        if k == "dict":
+            return V(t, (self.bv(name + ".dom", z3.ArraySort(sort_of(t[1]), z3.BoolSort())),
+                         self.bv(name + ".val", z3.ArraySort(sort_of(t[1]), sort_of(t[2])))))
+        return V(t, self.bv(name, sort_of(t)))
 
     def mkset(self, st, consts, body):
         """The set {consts | body} as an array term. Outside binders it is a fresh constant with a defining
@@ -100,7 +120,7 @@ class Engine:
         if k == "opt":
             return zand(znot(v.x[0]), self.truth(v.x[1]))
         if k in ("set", "bag"):
-            x = z3.Const(fresh_name("w"), sort_of(v.t[1]))
+            x = self.bv("w!", sort_of(v.t[1]))
             return z3.Exists([x], z3.Select(v.x, x))
         if k == "seq":
             return z3.Length(v.x) > 0
@@ -113,7 +133,7 @@ class Engine:
         if k == "tuple":
             return z3.BoolVal(len(v.x) > 0)
         if k == "dict":
-            x = z3.Const(fresh_name("w"), sort_of(v.t[1]))
+            x = self.bv("w!", sort_of(v.t[1]))
             return z3.Exists([x], z3.Select(v.x[0], x))
         if k == "obj":
             c = self.reg.lookup_method(v.t[1], "__bool__")
@@ -165,13 +185,12 @@ class Engine:
                 return FALSE
             return zand(*[self.eq(a.x[f], b.x[f]) for f in a.x])
         if ka == "dict" and kb == "dict":
-            k = z3.Const(fresh_name("k"), sort_of(a.t[1]))
+            k = self.bv("k!", sort_of(a.t[1]))
             return zand(a.x[0] == b.x[0], z3.ForAll([k], z3.Implies(z3.Select(a.x[0], k), z3.Select(a.x[1], k) == z3.Select(b.x[1], k))))
         if ka in ("set", "bag") and kb in ("set", "bag"):
             if sort_of(a.t) != sort_of(b.t):
                 return FALSE
-            x = z3.Const(fresh_name("e"), sort_of(a.t[1]))
-            return z3.ForAll([x], z3.Select(a.x, x) == z3.Select(b.x, x))
+            return a.x == b.x  # array extensionality
         ta, tb = to_term(a), to_term(b)
         if ta.sort() != tb.sort():
             return FALSE
@@ -420,7 +439,7 @@ class Engine:
         if a.t[0] == "int" and b.t[0] == "int":
             return {ast.Lt: a.x < b.x, ast.LtE: a.x <= b.x, ast.Gt: a.x > b.x, ast.GtE: a.x >= b.x}[type(op)]
         if isinstance(op, ast.LtE) and a.t[0] in ("set", "bag") and b.t[0] in ("set", "bag"):
-            x = z3.Const(fresh_name("e"), sort_of(a.t[1]))
+            x = self.bv("e!", sort_of(a.t[1]))
             return z3.ForAll([x], z3.Implies(z3.Select(a.x, x), z3.Select(b.x, x)))
         raise OutOfSubset(f"comparison {type(op).__name__} on {a.t},{b.t}")
 
